@@ -600,7 +600,11 @@ DeepOpSteps(op, sh, d) ==
     [] op = "drop"    -> <<Step("(begin (set! c18v@@ 0) " \o AllocLoop \o ")", "noncrash", NoEmit, "20000")>>
 MinOf(a, b) == IF a < b THEN a ELSE b
 DeepDepths(sh) == {MinOf(d, Cap(sh.name)) : d \in DEPTHS \cup (IF sh.flat THEN BIGDEPTHS ELSE {})}
-DeepCombos == UNION {{<<o, s, d>> : o \in 1..Len(DeepOpNames), d \in DeepDepths(DeepShapes[s])} : s \in 1..Len(DeepShapes)}
+\* shapes that come from source text: the point is reading / expanding / compiling them; the value
+\* is an ordinary nested list or vector, whose operations the loop-built shapes already cover
+DeepOpsFor(sh) == IF sh.src = "" THEN 1..Len(DeepOpNames)
+                  ELSE {o \in 1..Len(DeepOpNames) : DeepOpNames[o] \in {"create", "equalm", "write", "drop"}}
+DeepCombos == UNION {{<<o, s, d>> : o \in DeepOpsFor(DeepShapes[s]), d \in DeepDepths(DeepShapes[s])} : s \in 1..Len(DeepShapes)}
 \* last step of every deep case: the value is released INSIDE a step (otherwise it would die with
 \* the engine, outside any step, and a crash of that drop could not be attributed to the case)
 Release(op) == Step(IF op \in {"equal", "equalm", "hash"}
